@@ -39,7 +39,9 @@ func init() {
 		ID: "C38",
 		Rule: "sessions: scripts of well-formed prepared-statement traffic (prepare/execute with every parameter type/long data/reset/close, " +
 			"field list, init db, ping, set option, quit) with one packet mutated (every truncation point, length bytes ±1/0xff, " +
-			"out-of-range statement and parameter ids, dropped NUL, zero-length packet, unknown command bytes); handshakes: well-formed " +
+			"out-of-range statement and parameter ids, dropped NUL, zero-length packet, unknown command bytes) and COM_QUERY texts built from " +
+			"comment introducers with and without their terminators, unterminated quotes, hint / version-comment openers, NUL and non-UTF-8 bytes " +
+			"(each must be answered or the connection closed within the per-case time limit); handshakes: well-formed " +
 			"responses for every capability combination, truncated at every offset, with oversized length prefixes and auth responses " +
 			"of every length 0…40 for plain and hashed users; non-trivial = the session answered at least one packet with something " +
 			"other than an error (or the handshake was decoded)",
